@@ -87,6 +87,16 @@ func wrapFeature(rc *RC, f xmpp.StreamFeature, log *[]featStep) xmpp.StreamFeatu
 	if orig == nil {
 		return f
 	}
+	if parse := f.Parse; parse != nil {
+		// parsing what the peer advertised is a step of the negotiation too
+		f.Parse = func(ctx context.Context, d *xml.Decoder, start *xml.StartElement) (bool, interface{}, error) {
+			req, data, err := parse(ctx, d, start)
+			if err != nil {
+				*log = append(*log, featStep{NS: f.Name.Space + "#parse", Err: err, Step: rc.S.Steps})
+			}
+			return req, data, err
+		}
+	}
 	f.Negotiate = func(ctx context.Context, s *xmpp.Session, data interface{}) (xmpp.SessionState, io.ReadWriter, error) {
 		st := s.State()
 		mask, rw, err := orig(ctx, s, data)
@@ -207,7 +217,7 @@ func exchange(s *xmpp.Session, name xml.Name, ack string, mask xmpp.SessionState
 	return mask, nil, nil
 }
 
-var hsKinds = []string{"plain", "tls", "s2s", "ws", "component", "volfail"}
+var hsKinds = []string{"plain", "tls", "s2s", "ws", "component", "volfail", "volparse"}
 
 // HS is one handshake under simulation.
 type HS struct {
@@ -273,11 +283,23 @@ func (h *HS) Start() {
 	perm := func(*sasl.Negotiator) bool { return true }
 	origin := h.cliJID
 	switch h.kind {
-	case "plain", "volfail":
+	case "plain", "volfail", "volparse":
 		cfs := cf(xmpp.SASL("", "pass", sasl.Plain), xmpp.BindResource())
 		sfs := sf(xmpp.SASLServer(perm, sasl.Plain), xmpp.BindResource())
 		if h.kind == "volfail" {
 			cfs = append(cf(volFeature("urn:verif:vol", errBoom)), cfs...)
+			sfs = append(sf(volFeature("urn:verif:vol", nil)), sfs...)
+		}
+		if h.kind == "volparse" {
+			// a voluntary feature whose advertisement the initiator cannot make sense of, listed next to the others
+			bad := volFeature("urn:verif:vol", nil)
+			bad.Parse = func(ctx context.Context, d *xml.Decoder, start *xml.StartElement) (bool, interface{}, error) {
+				if err := d.Skip(); err != nil {
+					return false, nil, err
+				}
+				return false, nil, errBoom
+			}
+			cfs = append(cf(bad), cfs...)
 			sfs = append(sf(volFeature("urn:verif:vol", nil)), sfs...)
 		}
 		h.run(h.C, func() (*xmpp.Session, error) {
@@ -356,7 +378,7 @@ func (h *HS) Start() {
 
 // Done reports whether both sides returned.
 func (h *HS) Done() bool {
-	if h.kind == "volfail" && h.clientOnly {
+	if (h.kind == "volfail" || h.kind == "volparse") && h.clientOnly {
 		// the receiver keeps waiting for the next selection once the initiator gave up
 		return h.C.done
 	}
